@@ -35,6 +35,9 @@ def synthetic_kernel_inputs(seed):
     """Kernel-level inputs that are the same in every mode (derived from the seed only)."""
     g = np.random.Generator(np.random.PCG64(core.H(seed, "kernel")))
     t, k = int(g.integers(1, 40)), int(g.integers(1, 6))
+    if g.random() < 0.08:
+        # a long series: point index times cluster count beyond the range of small integer types
+        t, k = int(g.integers(22000, 24000)), int(g.integers(3, 5))
     cost = np.round(g.normal(0, 3, size=(t, k)), int(g.integers(0, 3)))      # rounding creates ties
     u = g.random()
     if u < 0.25:
@@ -62,7 +65,7 @@ def synthetic_kernel_inputs(seed):
     return cost, beta, (w, kk, mus, thetas, lds, pts)
 
 
-def summarise(case, seed):
+def summarise(case, seed, kernel=True):
     """Run the case in this interpreter's mode and return the per-round summary."""
     out = runner.execute(case)
     s = dict(ok=out.ok, exc=list(out.exc) if out.exc else None, digest=out.result_digest, rounds=[],
@@ -91,13 +94,19 @@ def summarise(case, seed):
     if out.ok:
         from ..oracles import flatten_result_labels
         s["final_labels"] = flatten_result_labels(out)
+    if not kernel:
+        return out, s
     # kernel level, same inputs in every mode
     import fast_ticc.cluster_label_assignment as cla
     import fast_ticc.likelihood as lk
     cost, beta, (w, kk, mus, thetas, lds, pts) = synthetic_kernel_inputs(seed)
-    labels, c = cla.assign_point_cluster_labels(cost, beta)
-    s["kernel_labels"] = [int(v) for v in labels]
-    s["kernel_cost"] = float(c)
+    try:
+        labels, c = cla.assign_point_cluster_labels(cost, beta)
+        s["kernel_labels"] = [int(v) for v in labels]
+        s["kernel_cost"] = float(c)
+        s["kernel_exc"] = None
+    except Exception as e:      # noqa: BLE001 - compared across modes
+        s["kernel_labels"], s["kernel_cost"], s["kernel_exc"] = None, None, type(e).__name__ + ": " + str(e)[:100]
     tab = lk.all_points_all_clusters_log_likelihood_fast(w, kk, mus, thetas, lds, pts)
     s["kernel_table"] = b64(tab)
     s["kernel_shape"] = list(np.asarray(tab).shape)
@@ -112,7 +121,11 @@ def compare(case, seed, a, b, ma, mb, counters=None):
         f.append(("C15:outcome", f"{ma}: {'ok' if a['ok'] else a['exc']} vs {mb}: {'ok' if b['ok'] else b['exc']}"))
         return f
     # kernel level
-    if a["kernel_labels"] != b["kernel_labels"] or a["kernel_cost"] != b["kernel_cost"]:
+    if (a.get("kernel_exc") is None) != (b.get("kernel_exc") is None):
+        f.append(("C15:kernel_labelling", f"labelling kernel on the same synthetic table: {ma} "
+                                          f"{'raises ' + a['kernel_exc'] if a.get('kernel_exc') else 'returns'}, {mb} "
+                                          f"{'raises ' + b['kernel_exc'] if b.get('kernel_exc') else 'returns'}"))
+    elif a.get("kernel_exc") is None and (a["kernel_labels"] != b["kernel_labels"] or a["kernel_cost"] != b["kernel_cost"]):
         cost, beta, _ = synthetic_kernel_inputs(seed)
         ca, _m = ref.path_cost(cost, beta, a["kernel_labels"])
         cb, _m2 = ref.path_cost(cost, beta, b["kernel_labels"])
@@ -221,7 +234,7 @@ class C15(Prop):
                 c = workload.clone(case)
                 c["pool"]["prange"] = style
                 c["pool"]["sched_seed"] = core.H(seed, "prange", style, r.random())
-                o2, s2 = summarise(c, seed)
+                o2, s2 = summarise(c, seed, kernel=False)
                 rec.absorb(o2)
                 rec.probe("prange_schedules")
                 if s2["digest"] != s["digest"] or [x["table"] for x in s2["rounds"]] != [x["table"] for x in s["rounds"]]:
@@ -232,7 +245,7 @@ class C15(Prop):
             import numba
             for nt in (1, 2, 4, 8, 16):
                 numba.set_num_threads(nt)
-                o2, s2 = summarise(case, seed)
+                o2, s2 = summarise(case, seed, kernel=False)
                 rec["sim_runs"] += 1
                 rec.probe("jit_thread_count_runs")
                 if s2["digest"] != s["digest"] or [x["table"] for x in s2["rounds"]] != [x["table"] for x in s["rounds"]]:
